@@ -10,6 +10,7 @@ package raft
 // one has been queued to the FSM, which makes every entry its own apply batch.
 
 import (
+	raftchunking "github.com/hashicorp/go-raftchunking"
 	"fmt"
 	"os"
 	"sync/atomic"
@@ -628,4 +629,98 @@ func TestVerifC08Raft(t *testing.T) {
 	mid = 0
 	res.Bound("raft_lag_pairs", 2)
 	res.Bound("raft_lag_scenarios", 3)
+
+	// (4) chunked entries on the leader (c08LeaderVerdicts below)
+	env.gateOn.Store(false)
+	c08LeaderVerdicts(t, b, res, "c08:raft-chunked", 48, init, deadline, &work, &execN)
+}
+
+// c08LeaderVerdicts: with the chunk size lowered to chunk bytes every proposal (plain write
+// or transaction commit) travels as several raft log entries and comes back through the
+// chunking wrapper (chunk = 0: the production chunk size, nothing is chunked). All merges
+// of pairs from a small colliding set, no FSM lag (gate open): the verdict the LEADER
+// reports for a transaction must be the serial reference's, and a refused transaction
+// leaves nothing behind.
+func c08LeaderVerdicts(t *testing.T, b *RaftBackend, res *vout.Result, sigPrefix string, chunk int, init map[string]string, deadline time.Time, work, execN *int) {
+	saved := raftchunking.ChunkSize
+	if chunk > 0 {
+		raftchunking.ChunkSize = chunk
+	}
+	defer func() { raftchunking.ChunkSize = saved }()
+	capped := false
+	chunked := c08Pick("r(a)w(b)", "r(b)w(a)", "rmw(a)", "l(d/)w(d/x)", "l(d/)w(d/y)", "w(a)w(a)r(b)", "pput(a)", "pput(b)pget(a)", "pput(d/y)", "pdel(a)")
+	for i := 0; i < len(chunked); i++ {
+		for j := i; j < len(chunked); j++ {
+			*work++
+			if !vout.Mine(*work) || capped {
+				continue
+			}
+			progs := []txc.Program{chunked[i], chunked[j]}
+			txc.Merges([]int{len(progs[0].Steps), len(progs[1].Steps)}, func(sch []int) {
+				if capped {
+					return
+				}
+				if time.Now().After(deadline) {
+					capped = true
+					res.NotExhaustive("internal deadline reached in the leader-verdict enumeration")
+					return
+				}
+				*execN++
+				prefix := fmt.Sprintf("e%d/", *execN)
+				be := c08Backend{c08Pref{c08RawKV{b}, prefix}, b, prefix}
+				rp := txc.Replay{Stack: "raft-chunked", Initial: init, Programs: progs, Schedule: append([]int{}, sch...)}
+				for k, v := range rp.Initial {
+					if err := be.Put(k, []byte(v)); err != nil {
+						t.Fatalf("harness: %v", err)
+					}
+				}
+				c, v := txc.RunSequential(be, rp)
+				res.Add("executions", 1)
+				res.Add("leader_verdict_executions", 1)
+				res.Add("transitions", int64(len(sch)))
+				if c != nil {
+					res.Add("commits", int64(c.Commits))
+					res.Add("conflicts", int64(c.Conflicts))
+					res.Distinct("nontrivial", fmt.Sprintf("leader|%d|%d|%d|%v", chunk, c.Commits, c.Conflicts, c.Hist[len(c.Hist)-1]))
+				}
+				if v != nil {
+					res.Violate(sigPrefix+":"+v.Kind, fmt.Sprintf("chunk size %d: ", chunk)+rp.String()+": "+v.Msg, rp)
+				}
+			})
+			res.Add("states", 1)
+		}
+	}
+	res.Bound(fmt.Sprintf("leader_verdict_chunk_size_%d", chunk), true)
+}
+
+// TestVerifC09Leader: "a verdict reported to a client by the leader is the verdict every
+// replica reaches". The replicas' verdicts equal the serial reference's (unit raftfsm);
+// here the verdict the LEADER hands to its client (RaftTransaction.Commit through the real
+// raft library, chunked and unchunked) is compared with the same reference.
+func TestVerifC09Leader(t *testing.T) {
+	res := vout.New("C09", "leader")
+	defer func() {
+		if err := res.Write(); err != nil {
+			t.Fatal(err)
+		}
+	}()
+	if vout.ReplayPath() != "" {
+		t.Log("C09 leader artefacts carry programs and schedule; re-run the check to reproduce (deterministic enumeration)")
+		return
+	}
+	base := os.Getenv("VERIF_SCRATCH")
+	if base == "" {
+		base = t.TempDir()
+	}
+	dir, err := os.MkdirTemp(base, "raft")
+	if err != nil {
+		t.Fatal(err)
+	}
+	b := getRaftWithDirQuiet(t, dir)
+	defer b.TeardownCluster(nil) //nolint:errcheck
+	init := map[string]string{"a": "0", "d/x": "0"}
+	deadline := time.Now().Add(time.Duration(vout.DeadlineS()) * time.Second)
+	work, execN := 0, 0
+	c08LeaderVerdicts(t, b, res, "c09:leader-chunked", 48, init, deadline, &work, &execN)
+	c08LeaderVerdicts(t, b, res, "c09:leader", 0, init, deadline, &work, &execN)
 }
